@@ -28,9 +28,14 @@ from . import kernel as _KN   # noqa: E402
 CONTRACTS += [CH.clone(_KN.bgp, callees=_KN.CALLEES, lib=_KN.LIB, hooks=_KN.HOOKS, home="c01")]
 
 
-def EXTRA():
+def _EXTRA0():
     # the public entry point hands its options (how many prior samples to use, how many posterior samples to keep, ...) to the function that
     # does the work, on both paths
     from jvc import effects
     return effects.check_option_forwarding(["thejoker.thejoker.TheJoker.rejection_sample"], PROPERTY,
                                            must_flow=[("n_prior_samples", "rejection_sample_inmem", "prior_samples_batch")])
+
+
+def EXTRA():
+    from . import chain as _CHX
+    return list(_EXTRA0()) + _CHX.frame_effects(PROPERTY)
